@@ -298,6 +298,8 @@ def _alarm(signum, frame):
 
 HANGS = [0]          # cases on which the implementation did not return in time, this run
 HANG_STOP = 5        # after that many, the remaining cases are not run (a hanging tree must not cost hours)
+RETRIED = [0]        # cases re-run after hitting the wall-clock limit (at most 2 per run)
+RETRY_LIMIT = 120
 POISONED = [False]   # a worker thread was abandoned while still running: it may hold locks; no further case is run
 
 
@@ -414,17 +416,17 @@ def supervise(rid, tier):
         time.sleep(0.5)
 
 
-def run_impl_guarded(mod, case, limit=20):
+def run_impl_guarded(mod, case, limit=20, retry=False):
     if POISONED[0]:
         return {'hang': True, 'not_run': 'an earlier case is still running on an abandoned thread'}
     signal.signal(signal.SIGALRM, _alarm)
     # repeating: should one CaseTimeout be swallowed (a bare `except:`, a `finally` that loops), the next one follows
-    signal.setitimer(signal.ITIMER_REAL, limit if HANGS[0] == 0 else 4, 1.0)
+    signal.setitimer(signal.ITIMER_REAL, limit if (HANGS[0] == 0 or retry) else 4, 1.0)
     CALLS[0] += 1
     _beat(case)
     try:
         try:
-            if CALLS[0] % THREAD_EVERY == 0 and not getattr(mod, 'MAIN_THREAD_ONLY', False) \
+            if CALLS[0] % THREAD_EVERY == 0 and not retry and not getattr(mod, 'MAIN_THREAD_ONLY', False) \
                     and os.environ.get('VERIF_NO_WORKER') != '1':
                 return _in_worker(mod, case)
             return mod.run_impl(case)
@@ -542,6 +544,14 @@ def evaluate(mod, exe, cases, model_ok):
                 % (HANGS[0], ' (one on a worker thread that cannot be stopped)' if POISONED[0] else '', len(cases) - len(recs)))
             break
         obs = run_impl_guarded(mod, c)
+        if obs == {'hang': True} and not POISONED[0] and RETRIED[0] < 2:
+            # a wall-clock limit is not yet a verdict (a loaded machine, a large enumeration batch): the first two
+            # cases that hit it are run again, on the main thread, with a generous limit
+            RETRIED[0] += 1
+            HANGS[0] -= 1
+            obs = run_impl_guarded(mod, c, limit=RETRY_LIMIT, retry=True)
+            log('note: a case hit the %d s limit and was run again with %d s: %s'
+                % (20, RETRY_LIMIT, 'no answer either' if obs == {'hang': True} else 'answered'))
         recs.append(dict(case=c, impl=obs, model=None, agree=None, fail=None, enc=None, raw=None))
     derr = ''
     if model_ok and exe:
@@ -567,7 +577,8 @@ def evaluate(mod, exe, cases, model_ok):
             r['fail'] = 'oracle crashed: %s: %s' % (type(ex).__name__, ex)
         if isinstance(r['impl'], dict) and r['impl'].get('not_run'):
             r['fail'] = None            # not an observation of this input
-        elif not r['fail'] and isinstance(r['impl'], dict) and r['impl'].get('hang') is True and len(r['impl']) == 1:
+        elif not r['fail'] and isinstance(r['impl'], dict) and r['impl'].get('hang') is True and len(r['impl']) == 1 \
+                and not getattr(mod, 'JUDGES_HANG', False):
             # no answer at all: whatever the property says about this input cannot hold
             r['fail'] = 'the implementation did not return on this input within the time limit (hang)'
     return recs, derr
